@@ -587,6 +587,12 @@ func lfVariants(d, other *world.DID, rng *rand.Rand, tier string) []lfVariant {
 	add("did:suffix-of-other-did", mk(other.Suffix, seg))
 	add("did:suffix-empty", mk("", seg))
 	add("did:suffix-truncated", mk(sfx[:len(sfx)-1], seg))
+	add("did:suffix-first-char-deleted", mk(sfx[1:], seg))
+	add("did:suffix-tail", mk(sfx[len(sfx)-10:], seg))
+	add("did:suffix-last-char", mk(sfx[len(sfx)-1:], seg))
+	add("did:suffix-extended-front", mk("x"+sfx, seg))
+	add("did:suffix-extended-back", mk(sfx+"A", seg))
+	add("did:suffix-case-changed", mk(strings.ToLower(sfx), seg))
 	add("did:extra-segment", ns08+":"+sfx+":"+seg+":"+seg)
 	vs = append(vs, lfVariant{"did:hint-segment", ns08 + ":hint:" + sfx + ":" + seg, true}) // a legitimate form: same suffix, same state
 	add("did:namespace-repeated", ns08+":"+ns08+":"+sfx)
